@@ -91,6 +91,14 @@ def replay_trajectories(sim: Sim, E: np.ndarray, A: np.ndarray, channel, n: int,
             if done:
                 if t + 1 < limit:
                     sim.probe("stopped_by_done_before_limit")
+                    # what follows the end of the episode is padding: zeros (as written today) or the final gap
+                    # carried forward - never any other number, and no further coalition ids
+                    tail, final = E[t + 2:, j], E[t + 1, j]
+                    if not all(x == 0 or np.float64(x).tobytes() == np.float64(final).tobytes() for x in tail) \
+                            or not all(a == 0 or a != a for a in A[t + 1:, j]):
+                        sim.fail("C12.rows_after_the_end_of_the_episode_are_not_padding",
+                                 {**ctx, "repetition": j, "ended_after_step": t, "final_gap": float(final),
+                                  "tail": [float(x) for x in tail], "tail_actions": [float(a) for a in A[t + 1:, j]]})
                 break
     return hidden_all
 
